@@ -439,12 +439,22 @@ Arguments hop : clear implicits.
 
 (* ------------------------------------------------------------------ correspondence check *)
 (* One observed value of a case: what was sent to the constructors, what the runtime holds
-   (iteration order as observed), and what Hash / String / a gob round trip returned. *)
+   (iteration order as observed), and what Hash / String / a gob round trip returned.
+   String() output is compared through a checksum (length, polynomial hash modulo 2^61-1) so
+   that the long printed strings need not be parsed by Coq. *)
+Inductive gobobs := GobSame | GobRep (c : cval) | GobFail.
+
 Record obs := mkObs {
-  o_in : cval; o_rep : cval; o_hash : N; o_str : list N; o_gob : option cval; o_gob_hash : N }.
+  o_in : option cval;       (* None: the constructor check is not made for this value *)
+  o_rep : cval; o_hash : N;
+  o_strlen : N; o_strsum : N;
+  o_gob : gobobs; o_gob_hash : N }.
+
+Definition str_sum (s : list N) : N :=
+  fold_left (fun h b => (h * 257 + b + 1) mod 2305843009213693951) s 0.
 
 Inductive hcall := CSetOp (i : nat) (p : Z) | CGetOp (i : nat) | CKeysOp | CClearOp.
-Inductive hret := RNone | RGet (r : option Z) | RKeys (ks : list cval).
+Inductive hret := RNone | RGet (r : option Z) | RKeys (ks : list nat).   (* keys as indices into the case's values *)
 
 Fixpoint list_eqb {A} (eq : A -> A -> bool) (l l' : list A) : bool :=
   match l, l' with
@@ -460,14 +470,14 @@ Definition opt_eqb {A} (eq : A -> A -> bool) (a b : option A) : bool :=
   | _, _ => false
   end.
 
-Fixpoint run_hcalls (reps : list cval) (h : hmap Z) (ops : list (hcall * hret)) : bool :=
+Fixpoint run_hcalls (reps : list value) (h : hmap Z) (ops : list (hcall * hret)) : bool :=
   match ops with
   | [] => true
   | (c, r) :: rest =>
       match c, r with
-      | CSetOp i p, RNone => run_hcalls reps (hm_set h (strip (nth i reps CDefault)) p) rest
-      | CGetOp i, RGet o => opt_eqb Z.eqb (hm_get h (strip (nth i reps CDefault))) o && run_hcalls reps h rest
-      | CKeysOp, RKeys ks => list_eqb veqb (hm_keys h) (map strip ks) && run_hcalls reps h rest
+      | CSetOp i p, RNone => run_hcalls reps (hm_set h (nth i reps VDefault) p) rest
+      | CGetOp i, RGet o => opt_eqb Z.eqb (hm_get h (nth i reps VDefault)) o && run_hcalls reps h rest
+      | CKeysOp, RKeys ks => list_eqb veqb (hm_keys h) (map (fun i => nth i reps VDefault) ks) && run_hcalls reps h rest
       | CClearOp, RNone => run_hcalls reps (hm_clear h) rest
       | _, _ => false
       end
@@ -477,15 +487,22 @@ Fixpoint run_hcalls (reps : list cval) (h : hmap Z) (ops : list (hcall * hret)) 
 Definition check_case (vs : list obs) (eqm : list (list bool)) (ops : list (hcall * hret)) : list nat :=
   let reps := map o_rep vs in
   (if forallb (fun o => rep_okb (strip (o_rep o))) vs then [] else [1%nat]) ++
-  (if forallb (fun o => veqb (canon (strip (o_rep o))) (canon (build (strip (o_in o))))) vs then [] else [2%nat]) ++
-  (if list_eqb (list_eqb Bool.eqb) (map (fun a => map (fun b => EqualC a b) reps) reps) eqm then [] else [3%nat]) ++
+  (if forallb (fun o => match o_in o with
+                        | Some i => veqb (canon (strip (o_rep o))) (canon (build (strip i)))
+                        | None => true end) vs then [] else [2%nat]) ++
+  (if list_eqb (list_eqb Bool.eqb) (map (fun a => map (fun b => EqualC a b) reps) reps) eqm
+      && list_eqb (list_eqb Bool.eqb) (map (fun a => map (fun b => Equal (strip a) (strip b)) reps) reps) eqm
+   then [] else [3%nat]) ++
   (if forallb (fun o => (HashC (o_rep o) =? o_hash o) && (Hash (strip (o_rep o)) =? o_hash o)) vs then [] else [4%nat]) ++
-  (if forallb (fun o => negb (printable_val (strip (o_rep o))) || list_eqb N.eqb (print (strip (o_rep o))) (o_str o)) vs then [] else [5%nat]) ++
+  (if forallb (fun o => negb (printable_val (strip (o_rep o)))
+                        || (let s := print (strip (o_rep o)) in
+                            (N.of_nat (List.length s) =? o_strlen o) && (str_sum s =? o_strsum o))) vs then [] else [5%nat]) ++
   (if forallb (fun o => match o_gob o with
-                        | Some g => veqb (canon (strip g)) (canon (strip (o_rep o))) && rep_okb (strip g)
-                                    && (HashC g =? o_gob_hash o)
-                        | None => false end) vs then [] else [6%nat]) ++
-  (if run_hcalls reps hm_new ops then [] else [7%nat]).
+                        | GobSame => o_gob_hash o =? o_hash o
+                        | GobRep g => veqb (canon (strip g)) (canon (strip (o_rep o))) && rep_okb (strip g)
+                                      && (HashC g =? o_gob_hash o)
+                        | GobFail => false end) vs then [] else [6%nat]) ++
+  (if run_hcalls (map strip reps) hm_new ops then [] else [7%nat]).
 
 Definition case := (list obs * list (list bool) * list (hcall * hret))%type.
 
